@@ -42,7 +42,7 @@ ASSUMPTIONS.update({
     "binop_for_assert": "binop_for_assert (eval.rs:7065) inspects the expression only",
     "eval_break": "eval_break: keeps the frame's base block count (PROVED in unit blocks under `for_values_present`, which is assumed here)",
     "eval_continue": "eval_continue: keeps the frame's base block count (PROVED in unit blocks)",
-    "eval_match_cases_on": "eval_match_cases_on (eval.rs: pattern matching on the scrutinee) is NOT verified here: assumed not to touch the value stack, to push exactly one bindings block (through eval_block) and no owner entry when it succeeds, and to change nothing when it fails",
+    "type_representation": "inspects the value only", "get_type_def": "Env::get_type_def reads env.types only", "vtn_eq": "TypeName == TypeName",
     "eval_struct_value": "eval_struct_value (eval.rs) is NOT verified here: assumed to leave the bindings blocks, the pending expressions and the other frames alone and to hand back what it popped when it fails (the restore contract)",
     "eval_call": "eval_call: the same clauses are PROVED for the whole function in unit calls",
     "eval_method_call": "eval_method_call: the same clauses are PROVED for the whole function in unit calls",
@@ -243,13 +243,6 @@ pub fn eval_continue(env: &mut Env)
     requires old(env).stack.0@.len() >= 1, base(*old(env)) >= 1,
     ensures base(*final(env)) == base(*old(env)), others_same(*old(env), *final(env)),
 { unimplemented!() }
-#[verifier::external_body]
-pub fn eval_match_cases_on(env: &mut Env, expr_value_is_used: bool, scrutinee_pos: &Position, cases: &[(Pattern, Block)], scrutinee_value: &Value) -> (r: Result<(), EvalError>)
-    requires old(env).stack.0@.len() >= 1,
-    ensures others_same(*old(env), *final(env)), vals(*final(env)) == vals(*old(env)),
-        r is Ok ==> blocks(*final(env)) == blocks(*old(env)) + 1 && owners(pend(*final(env))) == owners(pend(*old(env))),
-        r is Err ==> blocks(*final(env)) == blocks(*old(env)) && pend(*final(env)) == pend(*old(env)),
-{ unimplemented!() }
 /// the variable is bound in some bindings block of this frame (ghost)
 pub uninterp spec fn b_has(b: Bindings, id: InternedSymbolId) -> bool;
 impl Bindings {
@@ -390,6 +383,17 @@ impl Value {
 pub fn binop_for_assert(expr: &Rc<Expression>) -> (r: Option<(Rc<Expression>, BinaryOperatorKind, Rc<Expression>)>)
     ensures r is Some <==> expr.expr_ is BinaryOperator,
 { unimplemented!() }
+#[verifier::external_body]
+pub fn type_representation(value: &Value) -> (r: TypeName) { unimplemented!() }
+impl Env {
+    /// Env::get_type_def: a read-only lookup in env.types
+    #[verifier::external_body]
+    pub fn get_type_def(&self, name: &TypeName) -> (r: Option<&TypeDefAndMethods>) { unimplemented!() }
+}
+/// `b.as_ref()` on a Box: the boxed value (Box::as_ref has no Verus specification)
+pub fn vbox_ref<T>(b: &Box<T>) -> (r: &T) ensures *r == **b { &**b }
+#[verifier::external_body]
+pub fn vtn_eq(a: &TypeName, b: &TypeName) -> (r: bool) { unimplemented!() }
 """
 
 
@@ -444,7 +448,7 @@ def build(tier):
     u.add_type(VAL, "Value_", rules=common.VALUE_TYPE_RULES)
     common.add_error_types(u)
     u.raw(common.FMT, kind="prelude")
-    common.add_env_full(u, real_typename=True, typehint_stub=True, real_ast=("LetDestination", "ExpressionWithComma", "ParenthesizedArguments", "ParenthesizedExpression", "DictKeyValue"), no_syntaxid=True)
+    common.add_env_full(u, real_typename=True, typehint_stub=True, real_ast=("LetDestination", "ExpressionWithComma", "ParenthesizedArguments", "ParenthesizedExpression", "DictKeyValue", "Pattern"), no_syntaxid=True)
     u.raw(common.TOP_SPEC, kind="spec")
     u.raw(common.VALUE_GLUE, kind="prelude")
     u.raw(GLUE2, kind="prelude")
@@ -508,6 +512,21 @@ def build(tier):
         rw.simple("R13c", r"(eval_match_cases_on\(\s*env,\s*expr_value_is_used,\s*scrutinee_pos,\s*cases,\s*&scrutinee_value,?\s*\))\s*\.map_err\(\|e\| (\(RestoreValues\(vec!\[scrutinee_value\.clone\(\)\]\), e\))\)",
                   r"match \1 { Ok(v) => Ok(v), Err(e) => Err(\2) }"),
     ]
+    MCO_RULES = BASE_RULES + [
+        rw.simple("R11", r"\bpayload\.as_ref\(\)", "vbox_ref(payload)"),
+        rw.simple("R10", r"\bvalue_type_name == pattern_type_name\b", "vtn_eq(value_type_name, pattern_type_name)"),
+        rw.simple("R4", r"for \(pattern, case_expr\) in cases \{", "let mut __i1: usize = 0; while __i1 < cases.len() { let (pattern, case_expr) = &cases[__i1]; __i1 += 1;"),
+        rw.simple("R5", r"for \(symbol, value\) in symbols\.iter\(\)\.zip\(items\) \{", "let mut __i2: usize = 0; while __i2 < symbols.len() && __i2 < items.len() { let symbol = &symbols[__i2]; let value = &items[__i2]; __i2 += 1;"),
+    ]
+    u.add_fn(EV, "eval_match_cases_on", rules=MCO_RULES, contract=Contract(
+        requires=[("stack_nonempty", "old(env).stack.0@.len() >= 1")],
+        ensures=[("other_frames_and_values_untouched", "others_same(*old(env), *final(env)), vals(*final(env)) == vals(*old(env))", {"C07", "C06"}),
+                 ("a_matching_case_pushes_one_block", "r is Ok ==> blocks(*final(env)) == blocks(*old(env)) + 1 && owners(pend(*final(env))) == owners(pend(*old(env)))", {"C06"}),
+                 ("no_case_changes_nothing", "r is Err ==> blocks(*final(env)) == blocks(*old(env)) && pend(*final(env)) == pend(*old(env))", {"C06", "C07"})],
+        loops={1: dict(invariant=[("nothing_changed_yet", "*env == *old(env), old(env).stack.0@.len() >= 1")], decreases="cases@.len() - __i1"),
+               2: dict(invariant=[("nothing_changed_yet", "*env == *old(env), old(env).stack.0@.len() >= 1")], decreases="symbols@.len() - __i2")},
+        body_prelude=BU,
+        props={"C07", "C02", "C06"}))
     u.add_fn(EV, "eval_match_cases", rules=MC_RULES, contract=restore_contract("1", extra_ensures=[ONE_BLOCK_MORE], props={"C07", "C02", "C06"}))
     NS_RULES = BASE_RULES + [
         rw.simple("R2", r"\bns_info\.borrow\(\)", "vns_borrow(ns_info)"),
